@@ -252,15 +252,23 @@ pub fn run(r: &Report) {
     let mut jobs: Vec<(usize, RPayload, Option<zkp::PublicKey>)> = Vec::new();
     for net in 0..3 {
         for b in &bl {
-            for i in 0..8 {
-                jobs.push((net, RPayload::Pkh(hash20(i)), *b));
-                jobs.push((net, RPayload::Sh(hash20(i)), *b));
+            for i in 0..r.tier.pick(8usize, 64) {
+                let mut h = hash20(i);
+                if i >= 8 {
+                    h[i % 20] ^= (i / 8) as u8; // further leading-zero / bit patterns
+                    if i % 3 == 0 {
+                        h[0] = 0;
+                        h[1] = 0;
+                    }
+                }
+                jobs.push((net, RPayload::Pkh(h), *b));
+                jobs.push((net, RPayload::Sh(h), *b));
             }
             for v in 0..=16u8 {
                 let lens: Vec<usize> = if v == 0 { vec![20, 32] } else { (2..=40).collect() };
                 for l in lens {
-                    for c in 0..2u8 {
-                        jobs.push((net, RPayload::Wit(v, gen::blob(l, c * 50 + v)), *b));
+                    for c in 0..r.tier.pick(2u8, 12) {
+                        jobs.push((net, RPayload::Wit(v, gen::blob(l, c.wrapping_mul(50).wrapping_add(v))), *b));
                     }
                 }
             }
